@@ -175,6 +175,13 @@ class MethodExpander:
             return LinComb.atom(e.id)
         if isinstance(e, ast.UnaryOp) and isinstance(e.op, ast.USub):
             return -self.ev(f, e.operand, env)
+        if isinstance(e, ast.IfExp):
+            # `a if self.<flag> else b` on a construction-time flag of the variant being evaluated
+            t, neg = e.test, False
+            if isinstance(t, ast.UnaryOp) and isinstance(t.op, ast.Not):
+                t, neg = t.operand, True
+            if is_self_attr(t) and t.attr in self.flags:
+                return self.ev(f, e.body if (self.flags[t.attr] != neg) else e.orelse, env)
         if isinstance(e, ast.BinOp):
             if isinstance(e.op, (ast.Add, ast.Sub)):
                 a, b = self.ev(f, e.left, env), self.ev(f, e.right, env)
